@@ -320,6 +320,15 @@ def run(ctx):
                 continue
             failures.append(dict(case=cr, fails=[("lifted mock program is rejected by the Coq checker (%s, need %s)"
                                                   % (canon, need), "checker")], families=sorted(fams)))
+        if ctx.pid == "C07":
+            # the zero-value block of -stub must compile: go/types diagnostics located in it
+            for cr in cases:
+                sites = [x for x in ((cr.get("facts") or {}).get("error_sites") or []) if x.startswith("stub_block:")]
+                if sites and not (set(cr["families"]) & listed_families):
+                    failures.append(dict(case=cr, fails=[("with -stub the zero-value branch of %s does not compile"
+                                                          % sites[0].split(":", 1)[1],
+                                                          ((cr["facts"].get("type_errors") or ["?"])[0])[:200])],
+                                         families=sorted(cr["families"])))
         # runtime: real compiled mocks under histories / race detector, against MockSem
         rt = stage_mock.run(ctx.tools, ctx.seed, ctx.tier)
         if rt["errors"]:
